@@ -8,6 +8,7 @@ import (
 	"sync"
 
 	corev1 "k8s.io/api/core/v1"
+	"k8s.io/apimachinery/pkg/fields"
 	"k8s.io/apimachinery/pkg/runtime"
 	"sigs.k8s.io/controller-runtime/pkg/client"
 	"sigs.k8s.io/controller-runtime/pkg/client/fake"
@@ -105,7 +106,28 @@ func New(hooks *Hooks, objs ...client.Object) client.WithWatch {
 					return err
 				}
 			}
-			return c.List(ctx, list, opts...)
+			if err := c.List(ctx, list, opts...); err != nil {
+				return err
+			}
+			// fidelity: the fake client ignores ListOptions.Raw; a real API server honours its field selector
+			lo := &client.ListOptions{}
+			lo.ApplyOptions(opts)
+			if lo.Raw != nil && lo.Raw.FieldSelector != "" {
+				if pl, ok := list.(*corev1.PodList); ok {
+					sel, err := fields.ParseSelector(lo.Raw.FieldSelector)
+					if err != nil {
+						return err
+					}
+					kept := pl.Items[:0]
+					for _, p := range pl.Items {
+						if sel.Matches(fields.Set{"spec.nodeName": p.Spec.NodeName, "metadata.name": p.Name, "metadata.namespace": p.Namespace, "status.phase": string(p.Status.Phase)}) {
+							kept = append(kept, p)
+						}
+					}
+					pl.Items = kept
+				}
+			}
+			return nil
 		},
 		Create: func(ctx context.Context, c client.WithWatch, obj client.Object, opts ...client.CreateOption) error {
 			return write(ctx, c, "create", obj, func() error {
